@@ -77,7 +77,19 @@ var LibLog = &logCounter{}
 // LibSkips returns the number of library "Skipping …" log lines seen so far.
 func LibSkips() int64 { return atomic.LoadInt64(&LibLog.skips) }
 
-var gtfsFrame = regexp.MustCompile(`^(github\.com/jamespfennell/gtfs[^\s(]*)`)
+var gtfsFrame = regexp.MustCompile(`^(github\.com/jamespfennell/gtfs\S*)`)
+
+// frameFunc strips the argument list from a stack-trace function token.
+func frameFunc(tok string) string {
+	if i := strings.LastIndex(tok, "("); i > 0 && !strings.HasSuffix(tok, "(*") {
+		// keep receiver parentheses such as (*StopTime) intact: only cut when the part after "(" is not a receiver
+		rest := tok[i:]
+		if !strings.HasPrefix(rest, "(*") || strings.Contains(rest, ")") == false {
+			return tok[:i]
+		}
+	}
+	return tok
+}
 
 // ClassifyStack derives a stable signature from a panic value and a stack:
 // innermost module frame, and whether that frame belongs to gtfs or to the harness.
@@ -112,7 +124,7 @@ func ClassifyStack(panicVal string, stack string) (sig string, inLibrary bool) {
 			return "harness|" + fn + "|" + class, false
 		}
 		if m := gtfsFrame.FindStringSubmatch(line); m != nil {
-			fn := strings.TrimPrefix(m[1], "github.com/jamespfennell/")
+			fn := strings.TrimPrefix(frameFunc(m[1]), "github.com/jamespfennell/")
 			// strip closures' numeric suffixes for stability
 			fn = regexp.MustCompile(`\.func\d+(\.\d+)*`).ReplaceAllString(fn, ".func")
 			return "crash|" + fn + "|" + class, true
